@@ -95,6 +95,9 @@ def mk(recipe):
     if k == 'rep':
         pat = bytes.fromhex(recipe['pat'])
         return (pat * (recipe['n'] // len(pat) + 1))[:recipe['n']]
+    if k == 'ctr':      # compressible, and every position differs from every other one
+        n = recipe['n']
+        return b''.join(b'%09d\n' % i for i in range(n // 10 + 1))[:n]
     if k == 'cat':
         return b''.join(mk(r) for r in recipe['parts'])
     raise C.MachineryError('bad recipe %r' % (recipe,))
@@ -189,9 +192,120 @@ def _sibling(op, codec, kind):
     return poke
 
 
+_PULL = [0]
+_FORCE = [None]      # delivery mode of the next decompress runs: None (by turns), 'pull', 'sync', 'push'
+
+
+def _run_pull(kind, codec, pieces):
+    """Pull-driven delivery: the subscriber pushes the next piece from inside its on_next (a
+    reader that asks for more data when it receives some).  The bytes are attributed to the
+    piece pushed last, so that their concatenation is the order in which they were emitted.
+    -> (bytes per piece, bytes at completion, ended, err_at)"""
+    from rx.subject import Subject
+    subj = Subject()
+    op = _op(kind, codec)
+    st = {'ended': 'open', 'n_terminal': 0}
+    outs = [[] for _ in pieces]
+    final = []
+    pos = [0]
+    err_at = [0]
+
+    def push_next():
+        j = pos[0]
+        pos[0] += 1
+        subj.on_next(pieces[j])
+
+    depth = [0]
+
+    def on_next(x):
+        (outs[pos[0] - 1] if pos[0] >= 1 and not st.get('completing') else final).append(bytes(x))
+        if pos[0] < len(pieces) and st['ended'] == 'open' and not st.get('completing') and depth[0] < 30:
+            depth[0] += 1          # (bounded nesting: the interpreter's stack is not the subject)
+            try:
+                push_next()
+            finally:
+                depth[0] -= 1
+
+    def on_error(e):
+        st['n_terminal'] += 1
+        if st['ended'] == 'open':
+            st['ended'] = 'error:%s' % type(e).__name__
+            err_at[0] = err_at[0] or (len(pieces) + 1 if st.get('completing') else pos[0])
+
+    def on_completed():
+        st['n_terminal'] += 1
+        if st['ended'] == 'open':
+            st['ended'] = 'completed'
+    subj.pipe(op).subscribe(on_next=on_next, on_error=on_error, on_completed=on_completed)
+    while pos[0] < len(pieces):
+        try:
+            push_next()
+        except Exception as e:
+            if st['ended'] == 'open':
+                st['ended'] = 'raised:%s' % type(e).__name__
+                err_at[0] = err_at[0] or pos[0]
+    st['completing'] = True
+    try:
+        subj.on_completed()
+    except Exception as e:
+        if st['ended'] == 'open':
+            st['ended'] = 'raised:%s' % type(e).__name__
+    if err_at[0] == 0 and st['ended'] not in ('open', 'completed'):
+        err_at[0] = len(pieces) + 1
+    return [b''.join(o) for o in outs], b''.join(final), st['ended'], err_at[0]
+
+
+def _run_sync(kind, codec, pieces):
+    """A cold source that delivers every piece and the completion from inside its subscribe
+    function (nothing is deferred to a scheduler): the operator's subscribe() has not
+    returned yet when the data arrives.  Same result shape as _run_pull."""
+    import rx
+    op = _op(kind, codec)
+    st = {'ended': 'open', 'n_terminal': 0}
+    outs = [[] for _ in pieces]
+    final = []
+    pos = [0]
+    err_at = [0]
+
+    def _sub(observer, scheduler):
+        for j, p in enumerate(pieces):
+            pos[0] = j + 1
+            observer.on_next(p)
+        st['completing'] = True
+        observer.on_completed()
+
+    def on_next(x):
+        (outs[pos[0] - 1] if pos[0] >= 1 and not st.get('completing') else final).append(bytes(x))
+
+    def on_error(e):
+        st['n_terminal'] += 1
+        if st['ended'] == 'open':
+            st['ended'] = 'error:%s' % type(e).__name__
+            err_at[0] = err_at[0] or (len(pieces) + 1 if st.get('completing') else pos[0])
+
+    def on_completed():
+        st['n_terminal'] += 1
+        if st['ended'] == 'open':
+            st['ended'] = 'completed'
+    try:
+        rx.create(_sub).pipe(op).subscribe(on_next=on_next, on_error=on_error, on_completed=on_completed)
+    except Exception as e:
+        if st['ended'] == 'open':
+            st['ended'] = 'raised:%s' % type(e).__name__
+            err_at[0] = err_at[0] or (len(pieces) + 1 if st.get('completing') else max(1, pos[0]))
+    return [b''.join(o) for o in outs], b''.join(final), st['ended'], err_at[0]
+
+
 def run_compress(codec, chunks):
     """-> (bytes emitted per item, bytes emitted at completion, ended)"""
     from rx.subject import Subject
+    _PULL[0] += 1
+    if _PULL[0] % 5 == 0:
+        a, b, c, _ = _run_pull('c', codec, chunks)
+        return a, b, c
+    if _PULL[0] % 7 == 0:
+        a, b, c, _ = _run_sync('c', codec, chunks)
+        return a, b, c
     subj = Subject()
     op = _op('c', codec)
     cur, st = _observe(subj, op)
@@ -217,6 +331,11 @@ def run_compress(codec, chunks):
 def run_decompress(codec, pieces):
     """-> (bytes emitted per piece, bytes emitted at completion, ended, err_at)"""
     from rx.subject import Subject
+    _PULL[0] += 1
+    if _FORCE[0] == 'pull' or (_FORCE[0] is None and _PULL[0] % 5 == 0):
+        return _run_pull('d', codec, pieces)
+    if _FORCE[0] == 'sync' or (_FORCE[0] is None and _PULL[0] % 7 == 0):
+        return _run_sync('d', codec, pieces)
     subj = Subject()
     op = _op('d', codec)
     cur, st = _observe(subj, op)
@@ -800,6 +919,12 @@ def main(tier, replay):
         for n_mib, pat in ((3, '00'), (5, b'abcdefgh'.hex())) if thorough else ((3, '00'),):
             recipes = [{'k': 'rep', 'pat': pat, 'n': n_mib * 1024 * 1024 + 17}]
             add(record(codec, recipes, chunking=lambda wire, couts, cfinal: [len(wire)]), 'huge')
+            # pull-driven: a few pieces, each inflating to far more than any internal limit
+            _FORCE[0] = 'pull'
+            ctr = [{'k': 'ctr', 'n': 2 * n_mib * 1024 * 1024 + 17}]
+            add(record(codec, ctr, chunking=lambda wire, couts, cfinal: sizes_from_cuts(
+                [len(wire) // 4, len(wire) // 2, 3 * len(wire) // 4], len(wire))), 'huge')
+            _FORCE[0] = None
             add(record(codec, recipes,
                        chunking=lambda wire, couts, cfinal: sizes_from_cuts(
                            list(range(1024, len(wire), 1024)), len(wire))), 'huge')
